@@ -239,19 +239,33 @@ pub proof fn contract_c01_4_key_and_sign(s: L_State, i: int, j: int)
 // ---- C01 (caloric properties): the textbook relations between the caloric / volumetric properties and the
 // primitive derivatives (c_v = T/N (dS/dT)_V,  c_p = T/N [(dS/dT)_V - (dp/dT)^2/(dp/dV)],  kappa_T = -1/(V dp/dV),
 // mu_JT = -(V + T (dp/dT)/(dp/dV)) / (N c_p),  H = TS + A + pV, ...), for every selector where one is taken.
-pub proof fn contract_c01_caloric(s: L_State, c: Contributions)
+// The primitives are hidden in the proofs (only the combination is unfolded), which keeps the queries small and
+// makes them insensitive to commuted products / reordered sums.
+pub proof fn contract_c01_caloric_heat_capacities(s: L_State, c: Contributions) by(nonlinear_arith)
     ensures ({
-        let (t, v, n, rho) = (s.temperature, s.volume, s.total_moles, s.density);
+        let (t, v, n) = (s.temperature, s.volume, s.total_moles);
         let tot = Contributions::Total;
         &&& molar_isochoric_heat_capacity(s, c) == t * ds_dt(s, c) / n
         &&& (!(c is Residual) ==> molar_isobaric_heat_capacity(s, c) == (t / n) * (ds_dt(s, c) - (dp_dt(s, c) * dp_dt(s, c)) / dp_dv(s, c)))
         &&& molar_isobaric_heat_capacity(s, Contributions::Residual) == residual_molar_isobaric_heat_capacity(s)
         &&& residual_molar_isochoric_heat_capacity(s) == t * ds_res_dt(s) / n
         &&& residual_molar_isobaric_heat_capacity(s) == (t / n) * (ds_res_dt(s) - (dp_dt(s, tot) * dp_dt(s, tot)) / dp_dv(s, tot)) - RGAS()
+    })
+{}
+pub proof fn contract_c01_caloric_coefficients(s: L_State) by(nonlinear_arith)
+    ensures ({
+        let (t, v, n) = (s.temperature, s.volume, s.total_moles);
+        let tot = Contributions::Total;
         &&& isothermal_compressibility(s) == (-1real) / (dp_dv(s, tot) * v)
         &&& joule_thomson(s) == (-(v + t * dp_dt(s, tot) / dp_dv(s, tot))) / (n * molar_isobaric_heat_capacity(s, tot))
         &&& isentropic_compressibility(s) == (-molar_isochoric_heat_capacity(s, tot)) / (molar_isobaric_heat_capacity(s, tot) * dp_dv(s, tot) * v)
         &&& thermal_expansivity(s) == (-dp_dt(s, tot)) / dp_dv(s, tot) / v
+    })
+{}
+pub proof fn contract_c01_caloric_potentials(s: L_State, c: Contributions) by(nonlinear_arith)
+    ensures ({
+        let (t, v, n, rho) = (s.temperature, s.volume, s.total_moles, s.density);
+        let tot = Contributions::Total;
         &&& enthalpy(s, c) == t * entropy(s, c) + helmholtz_energy(s, c) + pressure(s, c) * v
         &&& internal_energy(s, c) == t * entropy(s, c) + helmholtz_energy(s, c)
         &&& gibbs_energy(s, c) == pressure(s, c) * v + helmholtz_energy(s, c)
@@ -294,8 +308,10 @@ pub proof fn contract_c03_2_new_nvt(eos: L_Eos, temperature: real, volume: real,
 {}
 
 // ---- C10.3: the ideal-gas terms are the derivatives of p_id = N R T / V
-pub proof fn contract_c10_3_ideal_gas_terms(s: L_State, i: int, j: int)
-    requires wf(s), s.volume > 0real,
+pub proof fn contract_c10_3_ideal_gas_terms(s: L_State, i: int, j: int) by(nonlinear_arith)
+    // well-formedness (contract_c03_2_new_nvt_unchecked): density = N / V; the whole identity is decided by the
+    // non-linear solver on the unfolded lifted expressions, so any equivalent way of writing the terms is accepted
+    requires s.density == s.total_moles / s.volume, s.volume > 0real,
     ensures
         // from the statement: "the ideal-gas part of the pressure is rho*R*T"
         pressure(s, Contributions::IdealGas) == s.density * RGAS() * s.temperature,
@@ -305,19 +321,11 @@ pub proof fn contract_c10_3_ideal_gas_terms(s: L_State, i: int, j: int)
         (dp_dni(s, Contributions::IdealGas).at)(i) == RGAS() * s.temperature / s.volume,
         d2p_dv2(s, Contributions::IdealGas) == 2real * (s.total_moles * RGAS() * s.temperature) / (s.volume * s.volume * s.volume),
         (dmu_dni(s, Contributions::IdealGas).at)(i, j) == (if i == j { RGAS() * s.temperature / (s.moles.at)(i) } else { 0real }),
-{
-    let (n, v, t, r) = (s.total_moles, s.volume, s.temperature, RGAS());
-    let rho = s.density;
-    assert(rho == n / v);
-    assert(((n / v) * r) * t == n * r * t / v) by(nonlinear_arith) requires v > 0real;
-    assert((((-(n / v)) * r) * t) / v == -(n * r * t) / (v * v)) by(nonlinear_arith) requires v > 0real;
-    assert((n / v) * r == n * r / v) by(nonlinear_arith) requires v > 0real;
-    assert((((2real * (n / v)) * r) * t) / (v * v) == 2real * (n * r * t) / (v * v * v)) by(nonlinear_arith) requires v > 0real;
-}
+{}
 pub proof fn pre_sat_c10_3() ensures ({
     let m = RArr { len: 1, at: |i: int| 1real };
     let s = new_nvt_unchecked(arbitrary(), 300real, 2real, m);
-    wf(s) && s.volume > 0real }) {}
+    wf(s) && s.volume > 0real && s.density == s.total_moles / s.volume }) {}
 
 // ---- C20.1: entropy scaling: value = reference(T,V,N) * exp(correlation(s_res, x)); the reduced
 // quantity and the reference are reported separately; s_res is the residual molar entropy of *this* state
